@@ -19,7 +19,8 @@
    * RENAME creates missing superior names of the destination (RFC 3501 6.3.5 SHOULD);
    * RENAME INBOX moves the messages (flags intact, UIDs assigned by the new mailbox) and leaves
      INBOX empty, inferiors of INBOX stay;
-   * names that MH cannot hold (only digits, only white space) are refused by CREATE/RENAME;
+   * names that MH cannot hold (a level of only digits, only white space) are refused by
+     CREATE/RENAME;
    * guard [name_ok]: names with an empty level, and names of more than one level whose first
      level is a spelling of INBOX other than "inbox", are outside the reference model
      (refused, nothing changes). *)
@@ -88,11 +89,11 @@ Definition name_ok (n : name) : bool :=
   forallb (fun c => match c with [] => false | _ :: _ => true end &&
                     negb (existsb (Ascii.eqb "/"%char) c)) n &&
   match n with c :: _ :: _ => implb (ceqb (lower c) (la "inbox")) (ceqb c (la "inbox")) | _ => true end.
-(* acceptable as the name of a new mailbox: not INBOX, not only digits, not only white space *)
+(* acceptable as the name of a new mailbox: not INBOX, no level that is only digits (MH keeps
+   the messages of a folder under such names), not only white space *)
+Definition all_digits (c : comp) : bool := match c with [] => false | _ :: _ => forallb is_digit c end.
 Definition new_name_ok (n : name) : bool :=
-  negb (is_inbox n) &&
-  negb (match flat n with [] => false | _ :: _ => forallb is_digit (flat n) end) &&
-  negb (forallb is_space (flat n)).
+  negb (is_inbox n) && negb (existsb all_digits n) && negb (forallb is_space (flat n)).
 
 (* ------------------------------------------------------------------ the reference tree *)
 Record msg := { m_uid : Z; m_cid : Z; m_flags : Z }.
@@ -165,20 +166,20 @@ Inductive spec_step (T : tree) : op -> result -> tree -> Prop :=
     (name_ok n = false \/ new_name_ok n = false \/ exists i, T n = Some i /\ i_placeholder i = false) ->
     spec_step T (Create n) NO T
 (* DELETE *)
-| S_delete_gone : forall n0 i T', let n := canon n0 in
-    name_ok n0 = true -> is_inbox n0 = false -> T n = Some i ->
-    ~ has_inferiors T n -> i_subscribed i = false ->
-    T' n = None -> only_at T T' n ->
+| S_delete_gone : forall n0 i T',
+    name_ok n0 = true -> is_inbox n0 = false -> T (canon n0) = Some i ->
+    ~ has_inferiors T (canon n0) -> i_subscribed i = false ->
+    T' (canon n0) = None -> only_at T T' (canon n0) ->
     spec_step T (Delete n0) OK T'
-| S_delete_kept : forall n0 i i' T', let n := canon n0 in
-    name_ok n0 = true -> is_inbox n0 = false -> T n = Some i ->
-    i_placeholder i = false -> (has_inferiors T n \/ i_subscribed i = true) ->
-    T' n = Some i' -> i_placeholder i' = true -> i_subscribed i' = i_subscribed i -> i_msgs i' = [] ->
-    i_special i' = i_special i -> only_at T T' n ->
+| S_delete_kept : forall n0 i i' T',
+    name_ok n0 = true -> is_inbox n0 = false -> T (canon n0) = Some i ->
+    i_placeholder i = false -> (has_inferiors T (canon n0) \/ i_subscribed i = true) ->
+    T' (canon n0) = Some i' -> i_placeholder i' = true -> i_subscribed i' = i_subscribed i -> i_msgs i' = [] ->
+    i_special i' = i_special i -> only_at T T' (canon n0) ->
     spec_step T (Delete n0) OK T'
-| S_delete_no : forall n0, let n := canon n0 in
-    (name_ok n0 = false \/ is_inbox n0 = true \/ T n = None \/
-     exists i, T n = Some i /\ i_placeholder i = true /\ (has_inferiors T n \/ i_subscribed i = true)) ->
+| S_delete_no : forall n0,
+    (name_ok n0 = false \/ is_inbox n0 = true \/ T (canon n0) = None \/
+     exists i, T (canon n0) = Some i /\ i_placeholder i = true /\ (has_inferiors T (canon n0) \/ i_subscribed i = true)) ->
     spec_step T (Delete n0) NO T
 (* RENAME of anything but INBOX: the whole subtree moves, every payload intact; missing superior
    names of the destination are created; nothing is left under the old name *)
@@ -197,17 +198,17 @@ Inductive spec_step (T : tree) : op -> result -> tree -> Prop :=
     T' inbox = Some (set_msgs (i_uidnext ib) [] ib) ->
     (forall m, m <> n -> m <> inbox -> T' m = T1 m) ->
     spec_step T (Rename o n) OK T'
-| S_rename_no : forall o0 n, let o := canon o0 in
-    (name_ok o0 = false \/ name_ok n = false \/ T o = None \/ T n <> None \/ new_name_ok n = false \/
+| S_rename_no : forall o0 n,
+    (name_ok o0 = false \/ name_ok n = false \/ T (canon o0) = None \/ T n <> None \/ new_name_ok n = false \/
      (is_inbox o0 = false /\
-      (below o n \/ (removelast n <> [] /\ T (removelast n) = None /\ new_name_ok (removelast n) = false)))) ->
+      (below (canon o0) n \/ (removelast n <> [] /\ T (removelast n) = None /\ new_name_ok (removelast n) = false)))) ->
     spec_step T (Rename o0 n) NO T
 (* SUBSCRIBE / UNSUBSCRIBE *)
-| S_subscribe : forall n0 i T', let n := canon n0 in name_ok n0 = true -> T n = Some i ->
-    T' n = Some (set_subscribed true i) -> only_at T T' n ->
+| S_subscribe : forall n0 i T', name_ok n0 = true -> T (canon n0) = Some i ->
+    T' (canon n0) = Some (set_subscribed true i) -> only_at T T' (canon n0) ->
     spec_step T (Subscribe n0) OK T'
-| S_unsubscribe : forall n0 i T', let n := canon n0 in name_ok n0 = true -> T n = Some i ->
-    T' n = Some (set_subscribed false i) -> only_at T T' n ->
+| S_unsubscribe : forall n0 i T', name_ok n0 = true -> T (canon n0) = Some i ->
+    T' (canon n0) = Some (set_subscribed false i) -> only_at T T' (canon n0) ->
     spec_step T (Unsubscribe n0) OK T'
 | S_subscribe_no : forall n0, (name_ok n0 = false \/ T (canon n0) = None) ->
     spec_step T (Subscribe n0) NO T
@@ -220,11 +221,11 @@ Inductive spec_step (T : tree) : op -> result -> tree -> Prop :=
     (name_ok n0 = false \/ T (canon n0) = None \/ exists i, T (canon n0) = Some i /\ i_placeholder i = true) ->
     spec_step T (Select n0) NO T
 (* APPEND: the new message gets UIDNEXT *)
-| S_append : forall n0 i cid fl T', let n := canon n0 in
-    name_ok n0 = true -> T n = Some i -> i_placeholder i = false ->
-    T' n = Some (set_msgs (i_uidnext i + 1)
+| S_append : forall n0 i cid fl T',
+    name_ok n0 = true -> T (canon n0) = Some i -> i_placeholder i = false ->
+    T' (canon n0) = Some (set_msgs (i_uidnext i + 1)
                           (i_msgs i ++ [{| m_uid := i_uidnext i; m_cid := cid; m_flags := fl |}]) i) ->
-    only_at T T' n ->
+    only_at T T' (canon n0) ->
     spec_step T (Append n0 cid fl) OK T'
 | S_append_no : forall n0 cid fl,
     (name_ok n0 = false \/ T (canon n0) = None \/ exists i, T (canon n0) = Some i /\ i_placeholder i = true) ->
